@@ -321,10 +321,10 @@ func runR143(c *core.Ctx) {
 				return true
 			}
 			cf := core.Callee(inf, call)
-			if cf == nil || cf.Name() != "Get" || core.RecvNamed(cf) == nil {
+			if cf == nil || core.NameOf(cf) != "Get" || core.RecvNamed(cf) == nil {
 				return true
 			}
-			if rn := core.RecvNamed(cf).Obj(); rn.Name() != "MIMEHeader" && rn.Name() != "Header" {
+			if rn := core.RecvNamed(cf).Obj(); core.NameOf(rn) != "MIMEHeader" && core.NameOf(rn) != "Header" {
 				return true
 			}
 			if cv := core.ConstOf(inf, call.Args[0]); cv != nil && cv.Kind() == constant.String && strings.EqualFold(constant.StringVal(cv), "Content-Type") {
@@ -454,7 +454,7 @@ func runR143(c *core.Ctx) {
 		if !ok {
 			return true
 		}
-		if cf := core.Callee(inf, call); cf == nil || cf.Name() != "NextPart" {
+		if cf := core.Callee(inf, call); cf == nil || core.NameOf(cf) != "NextPart" {
 			return true
 		}
 		errObj := core.ObjOf(inf, as.Lhs[1])
@@ -516,7 +516,7 @@ func runR144(c *core.Ctx) {
 	facts := core.Decompose(ifs.Cond, true, nil)
 	isThreshold := func(e ast.Expr) bool {
 		fv, ok := core.ObjOf(inf, e).(*types.Var)
-		return ok && fv.IsField() && fv.Name() == "QueryTunnellingThreshold"
+		return ok && fv.IsField() && core.NameOf(fv) == "QueryTunnellingThreshold"
 	}
 	isLenRawQuery := func(e ast.Expr) bool {
 		call, ok := core.Unparen(e).(*ast.CallExpr)
@@ -528,7 +528,7 @@ func runR144(c *core.Ctx) {
 			return false
 		}
 		fv, ok := core.ObjOf(inf, call.Args[0]).(*types.Var)
-		return ok && fv.IsField() && fv.Name() == "RawQuery"
+		return ok && fv.IsField() && core.NameOf(fv) == "RawQuery"
 	}
 	positive, above := false, false
 	extra := 0
@@ -572,7 +572,7 @@ func runR144(c *core.Ctx) {
 					post = true
 				}
 			}
-			if fv, ok := core.ObjOf(inf, as.Lhs[0]).(*types.Var); ok && fv.IsField() && fv.Name() == "RawQuery" {
+			if fv, ok := core.ObjOf(inf, as.Lhs[0]).(*types.Var); ok && fv.IsField() && core.NameOf(fv) == "RawQuery" {
 				if cv := core.ConstOf(inf, as.Rhs[0]); cv != nil && cv.ExactString() == `""` {
 					cleared = true
 				}
@@ -592,7 +592,7 @@ func runR144(c *core.Ctx) {
 				if core.ObjOf(inf, l) == verbParam && verbParam != nil {
 					outside = false
 				}
-				if fv, ok := core.ObjOf(inf, l).(*types.Var); ok && fv.IsField() && fv.Name() == "RawQuery" {
+				if fv, ok := core.ObjOf(inf, l).(*types.Var); ok && fv.IsField() && core.NameOf(fv) == "RawQuery" {
 					outside = false
 				}
 			}
@@ -619,7 +619,7 @@ func runR033(c *core.Ctx) {
 	}
 	isSet := func(call *ast.CallExpr, key types.Object) bool {
 		cf := core.Callee(inf, call)
-		return cf != nil && cf.Name() == "Set" && core.IsMethod(cf, "net/http", "Header", "Set") && len(call.Args) == 2 && core.ObjOf(inf, call.Args[0]) == key
+		return cf != nil && core.NameOf(cf) == "Set" && core.IsMethod(cf, "net/http", "Header", "Set") && len(call.Args) == 2 && core.ObjOf(inf, call.Args[0]) == key
 	}
 	flow := core.NewFlow(c.M, inf, fd.Body)
 	okAll, any := true, false
@@ -679,7 +679,7 @@ func runR033(c *core.Ctx) {
 		if cf := core.Callee(inf, call); cf != nil && cf.Origin() == recvFn && recvPos == 0 {
 			recvPos = call.Pos()
 		}
-		if cf := core.Callee(inf, call); cf != nil && cf.Name() == "Set" && len(call.Args) == 2 {
+		if cf := core.Callee(inf, call); cf != nil && core.NameOf(cf) == "Set" && len(call.Args) == 2 {
 			k, v := core.ConstOf(inf, call.Args[0]), core.ConstOf(inf, call.Args[1])
 			if k != nil && v != nil && k.ExactString() == `"Content-Type"` && v.ExactString() == `"application/json"` {
 				ctJSON = true
